@@ -83,6 +83,11 @@ def _alarm(signum, frame):
 # ------------------------------------------------------------------------------------------------
 # records: [abs owner text, ttl, rdtype text, rdata text (absolute names)]
 # ------------------------------------------------------------------------------------------------
+def rclass(r):
+    """class of a record: IN unless a fifth element says otherwise (wrong-class fault)"""
+    return dns.rdataclass.from_text(r[4]) if len(r) > 4 else IN
+
+
 class World:
     """objects of one case: origin, relativity, cached rrsets, interning of names and rdatas"""
 
@@ -123,7 +128,7 @@ class World:
         v = self.cache.get(k)
         if v is None:
             name = dns.name.from_text(r[0], None)
-            rd = dns.rdata.from_text(IN, r[2], r[3], origin=self.origin, relativize=self.rel, relativize_to=self.origin)
+            rd = dns.rdata.from_text(rclass(r), r[2], r[3], origin=self.origin, relativize=self.rel, relativize_to=self.origin)
             if self.rel and name.is_subdomain(self.origin):
                 name = name.relativize(self.origin)
             v = (name, int(r[1]), rd)
@@ -135,7 +140,7 @@ class World:
         k = ("abs",) + tuple(r)
         v = self.cache.get(k)
         if v is None:
-            v = dns.rrset.from_rdata(dns.name.from_text(r[0], None), int(r[1]), dns.rdata.from_text(IN, r[2], r[3]))
+            v = dns.rrset.from_rdata(dns.name.from_text(r[0], None), int(r[1]), dns.rdata.from_text(rclass(r), r[2], r[3]))
             self.cache[k] = v
         return v
 
@@ -154,7 +159,7 @@ class World:
 
     def rrset(self, group):
         name, ttl, rd = self.rec(group[0])
-        rs = dns.rrset.RRset(name, IN, rd.rdtype, rd.covers())
+        rs = dns.rrset.RRset(name, rclass(group[0]), rd.rdtype, rd.covers())
         rs.update_ttl(ttl)
         for r in group:
             _, t, d = self.rec(r)
@@ -216,8 +221,8 @@ def records_dump(w: World, recs):
     return out
 
 
-def make_zone(w: World, zk: str, recs):
-    z = ZK[zk](w.origin, relativize=w.rel)
+def make_zone(w: World, zk: str, recs, no_origin=False):
+    z = ZK[zk](None if no_origin else w.origin, relativize=w.rel)
     if recs:
         with z.writer(True) as txn:
             for r in recs:
@@ -235,6 +240,8 @@ def build_messages(w: World, case):
         m = dns.message.QueryMessage(id=4660 + i)
         m.flags |= dns.flags.QR | dns.flags.AA
         if md.get("rcode", 0):
+            if md["rcode"] > 15:
+                m.use_edns(0)  # an extended rcode lives in the OPT record
             m.set_rcode(md["rcode"])
         if md.get("q"):
             qn = dns.name.from_text(md["q"][0], None)
@@ -378,10 +385,10 @@ class ZoneCache:
         self.world = None
 
     def get(self, case):
-        key = (case["zk"], case["rel"], case["origin"], json.dumps(case["v0"]))
+        key = (case["zk"], case["rel"], case["origin"], json.dumps(case["v0"]), bool(case.get("no_origin")))
         if key != self.key or self.zone is None:
             self.world = World(case["origin"], case["rel"])
-            self.zone = make_zone(self.world, case["zk"], case["v0"])
+            self.zone = make_zone(self.world, case["zk"], case["v0"], bool(case.get("no_origin")))
             self.key = key
         return self.world, self.zone
 
@@ -455,21 +462,22 @@ def eval_xfr(ctx: Ctx, c: dict, collect=None):
     # records in wire order, which it reads like dns.message.from_wire(xfr=True, one_rr_per_rrset=is_ixfr) (P=1/2)
     wirep = c.get("via", "direct") != "direct"
     pmode = 0 if not wirep else (2 if req["rdtype"] == "IXFR" else 1)
+    has_class = any(len(r) > 4 for md in c["msgs"] for g in md["an"] for r in g)
     if wirep:
         names_first = [w.enc_wire_msg(md, m) for md, m in zip(c["msgs"], msgs)]
-        for j in sorted({0, len(msgs) - 1} if msgs else ()):
+        for j in sorted({0, len(msgs) - 1} if msgs and not has_class else ()):
             recs_j = ";".join(w.enc_rec(r) for g in c["msgs"][j]["an"] for r in g) or "-"
             parsed_j = ";".join(w.enc_rrset(rs) for rs in msgs[j].answer) or "-"
             ctx.corr(f"c13.parse one={1 if pmode == 2 else 0} N={w.enc_names()} R={recs_j}", parsed_j, c)
     else:
         names_first = [w.enc_msg(m) for m in msgs]  # interns names before the table is printed
-    op = (f"c13.run fix={fix} tr={0 if trace is None else 1} P={pmode} o={enc_labels(w.eff.labels)} t={int(dns.rdatatype.from_text(req['rdtype']))} "
+    op = (f"c13.run fix={fix} tr={0 if trace is None else 1} P={pmode} o={'none' if c.get('no_origin') else enc_labels(w.eff.labels)} t={int(dns.rdatatype.from_text(req['rdtype']))} "
           f"s={'none' if req['serial'] is None else req['serial']} u={1 if req['udp'] else 0} N=%s "
           f"Z={w.enc_keys(keys_before)} M={'|'.join(names_first) or '-'}")
     zs = "=" if keys_after == keys_before else w.enc_keys(keys_after)
     op = op % w.enc_names()
     impl = f"T={'|'.join(trace) if trace is not None else ''} R={res} Z={zs}"
-    if res != "hang":
+    if res != "hang" and not has_class:  # the record class is outside the model: oracle only
         ctx.corr(op, impl, c)
     # ---- the property itself, on the implementation
     what = f"{c['zk']}{'/rel' if c['rel'] else ''} {req['rdtype']}{'/udp' if req['udp'] else ''} serial={req['serial']} fault={fault}: "
@@ -645,6 +653,9 @@ def eval_mkq(ctx: Ctx, c: dict):
     w = World(c["origin"], c["rel"])
     zone = make_zone(w, c["zk"], c["v0"])
     ser = c["serial"]
+    if isinstance(ser, dict):  # a serial that is not an int, as {"py": "str:5"} / {"py": "float:2.5"}
+        kind, _, val = ser["py"].partition(":")
+        ser = val if kind == "str" else float(val)
     try:
         q, s = dns.xfr.make_query(zone, serial=ser)
         impl = f"ok {int(q.question[0].rdtype)} {'none' if s is None else s}"
@@ -653,8 +664,23 @@ def eval_mkq(ctx: Ctx, c: dict):
     except BaseException as e:  # noqa: BLE001
         q, impl = None, "err:Foreign:" + type(e).__name__
     ks = w.zone_keys(zone)
-    ctx.corr(f"c13.mkq o={enc_labels(w.eff.labels)} N={w.enc_names()} Z={w.enc_keys(ks)} s={'none' if ser is None else ser}", impl, c)
+    senc = "none" if ser is None else (ser if isinstance(ser, int) and not isinstance(ser, bool) else "bad")
+    ctx.corr(f"c13.mkq o={enc_labels(w.eff.labels)} N={w.enc_names()} Z={w.enc_keys(ks)} s={senc}", impl, c)
     ctx.count("mkq." + impl.split(" ")[0])
+    if senc == "bad" and impl != "err:ValueError":
+        ctx.fail("C13/make_query/non-int-serial", f"make_query(serial={ser!r}) -> {impl}, expected ValueError", rep)
+    # extract_serial_from_query refuses what is not a query message
+    import dns.update
+    try:
+        dns.xfr.extract_serial_from_query(dns.update.UpdateMessage(w.origin))
+        nimpl = "ok"
+    except ValueError:
+        nimpl = "err:ValueError"
+    except BaseException as e:  # noqa: BLE001
+        nimpl = "err:Foreign:" + type(e).__name__
+    ctx.corr("c13.xs notquery none", nimpl, c)
+    if nimpl != "err:ValueError":
+        ctx.fail("C13/extract_serial/not-a-query", f"extract_serial_from_query(UpdateMessage) -> {nimpl}, expected ValueError", rep)
     if q is not None:
         try:
             x = dns.xfr.extract_serial_from_query(q)
@@ -1072,10 +1098,34 @@ def fault_cases(rng, st, every=True):
             s = list(recs)
             s[i] = bump_serial(recs[i], rng.choice([1, 7, 2**31 + 5]))
             yield emit(s, f"soa-serial@{i}")
+            # corrupt another field of an SOA (refresh): it is no longer the SOA it was.  The final SOA then is
+            # not recognised (nothing ever equals the first SOA: the stream cannot complete), the first SOA
+            # makes the real final SOA unrecognisable; an inner SOA only changes what is stored on the way
+            s = list(recs)
+            f = recs[i][3].split()
+            f[3] = str(int(f[3]) + 17)
+            s[i] = [recs[i][0], recs[i][1], recs[i][2], " ".join(f)]
+            outer = i in (0, L - 1) and L > 1
+            yield emit(s, f"soa-field@{i}", "must-raise" if outer else "any")
         # corrupt the owner: another in-zone name / out of zone / (for an SOA) a non-apex name
         s = list(recs)
-        s[i] = [rng.choice([f"moved.{o}", "moved.other.test.", f"www.{o}"]), recs[i][1], recs[i][2], recs[i][3]]
-        yield emit(s, f"owner@{i}")
+        newo = rng.choice([f"moved.{o}", "moved.other.test.", f"www.{o}"])
+        s[i] = [newo, recs[i][1], recs[i][2], recs[i][3]]
+        # an SOA that is in the zone but not at its apex is refused wherever it arrives (first: FormError,
+        # while adding: ValueError, while deleting: DeleteNotExact)
+        yield emit(s, f"owner@{i}", "must-raise" if is_soa(recs[i]) and newo.endswith("." + o) else "any")
+    # a record of another class (in the zone, not an SOA): txn.add / txn.delete_exact refuse it, ValueError;
+    # a TTL above 2^31-1 (read as 0 from the wire)
+    cand = [i for i in range(1, L - 1) if not is_soa(recs[i]) and recs[i][2] in ("TXT", "MX", "NS", "CNAME")
+            and recs[i][0].lower().endswith(o.lower())]
+    for i in rng.shuffle(cand)[:3]:
+        s = list(recs)
+        s[i] = list(recs[i][:4]) + ["CH"]
+        yield emit(s, f"class@{i}", "must-raise", "ValueError")
+    for i in rng.shuffle([i for i in range(1, L - 1) if not is_soa(recs[i])])[:2]:
+        s = list(recs)
+        s[i] = [recs[i][0], rng.choice([2**31, 2**32 - 1]), recs[i][2], recs[i][3]]
+        yield emit(s, f"ttl-over@{i}")
     # a whole difference sequence is missing (the chain jumps): the next SOA does not continue from our serial
     if true_ixfr and len(st["delranges"]) >= 2:
         starts = [a - 1 for a, _ in st["delranges"]] + [L - 1]
@@ -1087,12 +1137,17 @@ def fault_cases(rng, st, every=True):
         j = rng.below(len(sizes))
 
         def rc(msgs, j=j):
-            msgs[j]["rcode"] = rng.choice([1, 2, 5, 9])
+            msgs[j]["rcode"] = rng.choice([1, 2, 5, 9, 16, 23])  # 16, 23: extended (upper bits in the OPT record)
         yield emit(recs, f"rcode@m{j}", "must-raise", "TransferError", sizes=sizes, tweak=rc)
 
         def qn(msgs, j=j):
             msgs[j]["q"] = [rng.choice(["other.test.", f"www.{o}", "."]), rdtype]
         yield emit(recs, f"qname@m{j}", "must-raise", "FormError", sizes=sizes, tweak=qn)
+
+        def both(msgs, j=j):
+            msgs[j]["rcode"] = rng.choice([2, 5, 16])
+            msgs[j]["q"] = [rng.choice(["other.test.", f"www.{o}"]), rng.choice([rdtype, "SOA"])]
+        yield emit(recs, f"rcode+question@m{j}", "must-raise", "TransferError", sizes=sizes, tweak=both)
 
         def qt(msgs, j=j):
             msgs[j]["q"] = [o, rng.choice(["SOA", "AXFR" if rdtype == "IXFR" else "IXFR", "ANY"])]
@@ -1121,6 +1176,9 @@ def fault_cases(rng, st, every=True):
         # … and in a later message: never read, the transfer is complete
         yield emit(recs + [extra], "surplus-next-message", "any", sizes=rand_sizes(rng, L, empties=False) + [1])
     # request faults: what Inbound.__init__ refuses
+    cno = emit(recs, "init-zone-without-origin", "must-raise", "ValueError")
+    if cno["zk"] != "btree":
+        yield dict(cno, no_origin=True, v0=[])
     if rdtype == "AXFR":
         yield emit(recs, "init-axfr-over-udp", "must-raise", "ValueError", req={"udp": True})
     else:
@@ -1150,7 +1208,8 @@ def gen_mkq(rng):
     if rng.chance(1, 8):
         recs = []
     zk = rng.choice(["plain", "versioned", "btree"])
-    ser = rng.choice([None, 0, 0, 1, 5, 2**31, 2**32 - 1, 2**32, 2**32 + 5, -1, -7, v.serial])
+    ser = rng.choice([None, 0, 0, 1, 5, 2**31, 2**32 - 1, 2**32, 2**32 + 5, -1, -7, v.serial,
+                      {"py": "str:5"}, {"py": "float:2.5"}, {"py": "str:0"}])
     return {"kind": "mkq", "zk": zk, "rel": rng.chance(1, 2), "origin": o, "v0": recs, "serial": ser}
 
 
